@@ -265,8 +265,281 @@ theorem get_or_insert_history : ∀ (reqs : List (Int × Int)) (ls ls' : Layers)
         rw [← hg.1]
         exact ih ls1 ls2 o2 (get_or_insert_fidelity ls ls1 ln pn k q h h1).1 h2
 
+/-- the name index points at layers of that name -/
+def WFN (ls : Layers) : Prop := ∀ s k, ls.keyname s = some k → ∃ l, ls.slots[k]? = some l ∧ l.name = some s
+
+theorem nextnumGo_free (ls : Layers) : ∀ (f : Nat) (k n : Int), ls.nextnumGo f k = some n → ls.keynum n = none := by
+  intro f
+  induction f with
+  | zero => intro k n h; simp [Layers.nextnumGo] at h
+  | succ f ih =>
+    intro k n h
+    simp only [Layers.nextnumGo] at h
+    split at h
+    · rename_i hk
+      simp only [Option.some.injEq] at h; subst h
+      simpa [Layers.keynum, Option.isNone_iff_eq_none] using hk
+    · exact ih _ _ h
+
+theorem nextnum_free (ls : Layers) (n : Int) (h : ls.nextnum = some n) : ls.keynum n = none :=
+  nextnumGo_free ls _ _ _ h
+
+/-- **Layers are found by the name the LEF gives them, across every history**: `import_layer name` returns a key
+    whose layer carries exactly that name, never disturbs the number or name of any layer created before (the new
+    layer takes a number nobody has), and keeps both indices consistent. -/
+theorem import_by_name_fidelity (ls ls' : Layers) (name : Bytes) (key : Nat) (h : WF ls) (hn : WFN ls)
+    (hg : ls.importByName name = some (ls', key)) :
+    WF ls' ∧ WFN ls' ∧ ls'.getName key = some name ∧ (∀ (k : Nat) (l : Layer), ls.slots[k]? = some l → ls'.slots[k]? = some l) ∧
+    (∀ (m : Int) (k : Nat), ls.keynum m = some k → ls'.keynum m = some k) := by
+  unfold Layers.importByName at hg
+  cases hk : ls.keyname name with
+  | some k =>
+    simp only [hk, Option.some.injEq, Prod.mk.injEq] at hg
+    obtain ⟨rfl, rfl⟩ := hg
+    obtain ⟨l, hl, hname⟩ := hn name k hk
+    exact ⟨h, hn, by simp [Layers.getName, Layers.get, hl, hname], fun _ _ h => h, fun _ _ h => h⟩
+  | none =>
+    simp only [hk] at hg
+    cases hx : ls.nextnum with
+    | none => simp [hx] at hg
+    | some n =>
+      simp only [hx, Option.some.injEq] at hg
+      have hfree := nextnum_free ls n hx
+      have hls : ls' = (ls.add ⟨n, some name, [], []⟩).1 := by rw [hg]
+      have hkey : key = ls.slots.length := by
+        have := congrArg Prod.snd hg; simpa [Layers.add] using this.symm
+      subst hls
+      refine ⟨add_keeps_wf ls _ h (good_empty n (some name)), ?_, ?_, ?_, ?_⟩
+      · intro s k hsk
+        simp only [Layers.add, Layers.keyname] at hsk ⊢
+        by_cases hs : s = name
+        · subst hs
+          rw [amGet_insert_same] at hsk
+          simp only [Option.some.injEq] at hsk; subst hsk
+          exact ⟨⟨n, some s, [], []⟩, by simp, rfl⟩
+        · rw [amGet_insert_other _ _ _ _ hs] at hsk
+          obtain ⟨l0, hl0, hnm⟩ := hn s k hsk
+          have hlt : k < ls.slots.length := by
+            rcases Nat.lt_or_ge k ls.slots.length with h | h
+            · exact h
+            · rw [List.getElem?_eq_none h] at hl0; simp at hl0
+          exact ⟨l0, by rw [List.getElem?_append_left hlt]; exact hl0, hnm⟩
+      · subst hkey; simp [Layers.getName, Layers.get, Layers.add]
+      · intro k l hl
+        have hlt : k < ls.slots.length := by
+          rcases Nat.lt_or_ge k ls.slots.length with h | h
+          · exact h
+          · rw [List.getElem?_eq_none h] at hl; simp at hl
+        simp only [Layers.add]
+        rw [List.getElem?_append_left hlt]; exact hl
+      · intro m k hmk
+        simp only [Layers.add, Layers.keynum] at hmk ⊢
+        have hne : m ≠ n := by intro e; subst e; simp [Layers.keynum] at hfree; rw [hfree] at hmk; simp at hmk
+        rw [amGet_insert_other _ _ _ _ hne]; exact hmk
+
+
+/-- a later `get_or_insert` never changes what an earlier registration looks up to -/
+theorem get_or_insert_preserves (ls ls' : Layers) (ln pn : Int) (key : Nat) (q : Purpose) (h : WF ls)
+    (hg : ls.getOrInsert ln pn = some (ls', key, q)) (k : Nat) (p : Purpose) (spec : Int × Int)
+    (hs : ls.layerspec k p = some spec) : ls'.layerspec k p = some spec := by
+  unfold Layers.getOrInsert at hg
+  -- step 1: `ensure` keeps every slot
+  have hens : ∀ (k : Nat) (l : Layer), ls.slots[k]? = some l → (ls.ensure ln).1.slots[k]? = some l := by
+    intro k l hl
+    unfold Layers.ensure
+    cases hk : ls.keynum ln with
+    | some _ => simpa using hl
+    | none =>
+      have hlt : k < ls.slots.length := by
+        rcases Nat.lt_or_ge k ls.slots.length with h | h
+        · exact h
+        · rw [List.getElem?_eq_none h] at hl; simp at hl
+      simp only [Layers.add]
+      rw [List.getElem?_append_left hlt]; exact hl
+  have hwf1 : WF (ls.ensure ln).1 := by
+    unfold Layers.ensure
+    cases hk : ls.keynum ln with
+    | some _ => simpa using h
+    | none => exact add_keeps_wf ls _ h (good_empty ln none)
+  generalize (ls.ensure ln).1 = ls1 at hg hens hwf1
+  generalize (ls.ensure ln).2 = k1 at hg
+  unfold Layers.layerspec at hs ⊢
+  cases hl : ls.slots[k]? with
+  | none => simp [hl] at hs
+  | some l =>
+    simp only [hl] at hs
+    have hl1 := hens k l hl
+    unfold Layers.purposeAt at hg
+    cases hk1 : ls1.slots[k1]? with
+    | none => simp [hk1] at hg
+    | some l1 =>
+      simp only [hk1] at hg
+      cases hp : l1.purpose pn with
+      | some p1 =>
+        simp only [hp, Option.some.injEq, Prod.mk.injEq] at hg
+        obtain ⟨rfl, _, _⟩ := hg
+        simp only [hl1]; exact hs
+      | none =>
+        simp only [hp] at hg
+        cases ha : l1.addPurpose pn (.other pn) with
+        | none => simp [ha] at hg
+        | some l2 =>
+          simp only [ha, Option.some.injEq, Prod.mk.injEq] at hg
+          obtain ⟨rfl, _, _⟩ := hg
+          by_cases hkk : k = k1
+          · subst hkk
+            rw [hl1] at hk1; simp only [Option.some.injEq] at hk1; subst hk1
+            have hlt : k < ls1.slots.length := by
+              rcases Nat.lt_or_ge k ls1.slots.length with h | h
+              · exact h
+              · rw [List.getElem?_eq_none h] at hl1; simp at hl1
+            simp only [setSlot, List.getElem?_set, hlt, if_true]
+            have hgood : l.Good := hwf1.2 l (List.mem_of_getElem? hl1)
+            have hnum : l2.num p = l.num p := by
+              rw [layer_num_after_add l l2 pn (.other pn) p ha]
+              by_cases hpe : p = .other pn
+              · subst hpe
+                -- `other pn` cannot have been registered: it would stand under pn, where nothing stands
+                cases hx : l.num (.other pn) with
+                | none => simp [hx] at hs
+                | some n =>
+                  have h1 := (hgood.1 n (.other pn)).2 hx
+                  have h2 := hgood.2 n pn h1
+                  subst h2; rw [hp] at h1; simp at h1
+              · simp [hpe]
+            have hln : l2.layernum = l.layernum := by obtain ⟨_, rfl⟩ := addPurpose_eq l l2 pn _ ha; rfl
+            simp only [hnum, hln]; exact hs
+          · simp only [setSlot, List.getElem?_set, Ne.symm hkk, if_false, hl1]
+            simpa using hs
+
+/-- **A whole import**: after ANY sequence of `get_or_insert` calls on a well-formed table, EVERY returned
+    (key, purpose) still looks up — through `export_layerspec` — to exactly the numbers it was requested with:
+    each shape comes out on the layer / datatype it came in on, whatever was registered in between. -/
+theorem import_history_numbers : ∀ (reqs : List (Int × Int)) (ls ls' : Layers) (out : List (Nat × Purpose)), WF ls →
+    getOrInsertMany ls reqs = some (ls', out) →
+    out.length = reqs.length ∧ ∀ i (hi : i < reqs.length) (ho : i < out.length),
+      ls'.layerspec out[i].1 out[i].2 = some reqs[i] := by
+  intro reqs
+  induction reqs with
+  | nil =>
+    intro ls ls' out _ hg
+    simp only [getOrInsertMany, Option.some.injEq, Prod.mk.injEq] at hg
+    obtain ⟨_, rfl⟩ := hg
+    exact ⟨rfl, fun i hi => by simp at hi⟩
+  | cons a r ih =>
+    intro ls ls' out h hg
+    obtain ⟨ln, pn⟩ := a
+    simp only [getOrInsertMany] at hg
+    cases h1 : ls.getOrInsert ln pn with
+    | none => simp [h1] at hg
+    | some t =>
+      obtain ⟨ls1, k, q⟩ := t
+      simp only [h1, Option.bind_some] at hg
+      cases h2 : getOrInsertMany ls1 r with
+      | none => simp [h2] at hg
+      | some t2 =>
+        obtain ⟨ls2, o2⟩ := t2
+        simp only [h2, Option.map_some, Option.some.injEq, Prod.mk.injEq] at hg
+        obtain ⟨rfl, rfl⟩ := hg
+        obtain ⟨hwf1, l1, hl1, hn1, hq1⟩ := get_or_insert_fidelity ls ls1 ln pn k q h h1
+        obtain ⟨hlen, hrest⟩ := ih ls1 ls2 o2 hwf1 h2
+        refine ⟨by simp [hlen], ?_⟩
+        intro i hi ho
+        cases i with
+        | zero =>
+          simp only [List.getElem_cons_zero]
+          -- the first registration survives every later one
+          have hfirst : ls1.layerspec k q = some (ln, pn) := by
+            simp only [Layers.layerspec, Layers.get] at hl1 ⊢
+            simp [hl1, hq1, hn1]
+          clear hrest hlen ih
+          -- push it through the remaining history
+          have hpush : ∀ (r : List (Int × Int)) (a b : Layers) (o : List (Nat × Purpose)), WF a → getOrInsertMany a r = some (b, o) →
+              a.layerspec k q = some (ln, pn) → b.layerspec k q = some (ln, pn) := by
+            intro r
+            induction r with
+            | nil => intro a b o _ hg hs; simp only [getOrInsertMany, Option.some.injEq, Prod.mk.injEq] at hg; rw [← hg.1]; exact hs
+            | cons x r ih2 =>
+              intro a b o hwa hg hs
+              obtain ⟨ln2, pn2⟩ := x
+              simp only [getOrInsertMany] at hg
+              cases e1 : a.getOrInsert ln2 pn2 with
+              | none => simp [e1] at hg
+              | some t =>
+                obtain ⟨a1, k2, q2⟩ := t
+                simp only [e1, Option.bind_some] at hg
+                cases e2 : getOrInsertMany a1 r with
+                | none => simp [e2] at hg
+                | some t2 =>
+                  obtain ⟨a2, o2'⟩ := t2
+                  simp only [e2, Option.map_some, Option.some.injEq, Prod.mk.injEq] at hg
+                  rw [← hg.1]
+                  exact ih2 a1 a2 o2' (get_or_insert_fidelity a a1 ln2 pn2 k2 q2 hwa e1).1 e2
+                    (get_or_insert_preserves a a1 ln2 pn2 k2 q2 hwa e1 k q (ln, pn) hs)
+          exact hpush r ls1 ls2 o2 hwf1 h2 hfirst
+        | succ j =>
+          simp only [List.getElem_cons_succ]
+          exact hrest j (by simpa using hi) (by simpa using ho)
+
+
+/-- a history of `import_layer` calls -/
+def importByNameMany : Layers → List Bytes → Option (Layers × List Nat)
+  | ls, [] => some (ls, [])
+  | ls, s :: rest => (ls.importByName s).bind fun (ls1, k) => (importByNameMany ls1 rest).map fun (ls2, out) => (ls2, k :: out)
+
+theorem getName_of_slot (ls : Layers) (k : Nat) (l : Layer) (h : ls.slots[k]? = some l) : ls.getName k = l.name := by
+  simp [Layers.getName, Layers.get, h]
+
+/-- **A whole LEF import**: after ANY sequence of `import_layer` calls on a well-formed layer set, every returned key
+    still carries the name it was requested with — geometry lands on the layer named in the LEF, whatever other
+    layers were created in between — and the layer set stays well-formed in both indices. -/
+theorem import_names_history : ∀ (names : List Bytes) (ls ls' : Layers) (keys : List Nat), WF ls → WFN ls →
+    importByNameMany ls names = some (ls', keys) →
+    WF ls' ∧ WFN ls' ∧ keys.length = names.length ∧
+    (∀ (k : Nat) (l : Layer), ls.slots[k]? = some l → ls'.slots[k]? = some l) ∧
+    ∀ i (hi : i < names.length) (hk : i < keys.length), ls'.getName keys[i] = some names[i] := by
+  intro names
+  induction names with
+  | nil =>
+    intro ls ls' keys h hn hg
+    simp only [importByNameMany, Option.some.injEq, Prod.mk.injEq] at hg
+    obtain ⟨rfl, rfl⟩ := hg
+    exact ⟨h, hn, rfl, fun _ _ h => h, fun i hi => by simp at hi⟩
+  | cons s r ih =>
+    intro ls ls' keys h hn hg
+    simp only [importByNameMany] at hg
+    cases h1 : ls.importByName s with
+    | none => simp [h1] at hg
+    | some t =>
+      obtain ⟨ls1, k⟩ := t
+      simp only [h1, Option.bind_some] at hg
+      cases h2 : importByNameMany ls1 r with
+      | none => simp [h2] at hg
+      | some t2 =>
+        obtain ⟨ls2, o2⟩ := t2
+        simp only [h2, Option.map_some, Option.some.injEq, Prod.mk.injEq] at hg
+        obtain ⟨rfl, rfl⟩ := hg
+        obtain ⟨hwf1, hwn1, hname1, hkeep1, _⟩ := import_by_name_fidelity ls ls1 s k h hn h1
+        obtain ⟨hwf2, hwn2, hlen, hkeep2, hrest⟩ := ih ls1 ls2 o2 hwf1 hwn1 h2
+        refine ⟨hwf2, hwn2, by simp [hlen], fun k l hl => hkeep2 k l (hkeep1 k l hl), ?_⟩
+        intro i hi hk
+        cases i with
+        | zero =>
+          simp only [List.getElem_cons_zero]
+          -- the slot of the first key is kept by everything that follows
+          cases hs : ls1.slots[k]? with
+          | none => simp [Layers.getName, Layers.get, hs] at hname1
+          | some l =>
+            rw [getName_of_slot ls1 k l hs] at hname1
+            rw [getName_of_slot ls2 k l (hkeep2 k l hs)]; exact hname1
+        | succ j =>
+          simp only [List.getElem_cons_succ]
+          exact hrest j (by simpa using hi) (by simpa using hk)
+
+
 /-! non-vacuity: the empty table is well-formed; a purpose registered twice keeps its last number; the C07-m12 history -/
 example : WF {} := ⟨by intro n k h; simp [Layers.keynum, amGet] at h, by intro l h; simp at h⟩
+example : WFN {} := by intro s k h; simp [Layers.keyname, amGet] at h
 example : (addMany ⟨68, none, [], []⟩ [(20, .other 20), (5, .label), (20, .drawing)]).bind (fun l => l.num (.other 20)) = some 20 := by decide
 
 end L21.Layers
